@@ -64,6 +64,20 @@ theorem C01_rhs_is_sum (c : Content) (t : Rat) (xs d : List Rat) (h : callRhs c 
   rw [rhsFromArgs_lookup h3 x]
   simp [hx]
 
+/-- **Fluxes, derived quantities and state-dependent coefficients are functions of the values
+    their named arguments have at that state.**  In the argument environment behind every entry
+    point (`__call__`, `get_right_hand_side`, `get_fluxes`, `get_args`), each dynamic component
+    holds: its value is its function applied to the environment's values of its arguments; all
+    other names keep the supplied state / time / cached parameter values. -/
+theorem C01_args_resolve {c : Content} (hwf : WFd c) {cache : Cache}
+    (hc : createCache c = .ok cache) (vars : List (Name × Rat))
+    (hv : vars.map (·.1) = omKeys c.vars) (t : Rat) {env : Env}
+    (h : getArgsEnv c cache vars t = .ok env) :
+    (∀ k ∈ cache.dynOrder, ∀ comp, c.containers.lookup k = some comp → comp.Holds k env) ∧
+    (∀ n, n ∉ cache.dynOrder.flatMap (providedOf c.containers) →
+      env.lookup n = (baseEnv cache.allPars vars c.data t).lookup n) :=
+  getArgs_consistent hwf hc vars hv t h
+
 /-- a variable that appears in neither coefficient table gets exactly 0 -/
 theorem C01_untouched_zero (dep : Env) (x : Name)
     (st : List (Name × List (Name × Rat))) (dst : List (Name × List (Name × Fn)))
